@@ -94,7 +94,10 @@ pub fn run(a: &Args) {
                 for _ in 0..len { let x = (c % alpha as u64) as usize; c /= alpha as u64; seq.push((x / 2, x % 2 == 1)); }
                 let lines = build(&seq, 0x7f00_0000_1000, &[0x1000, 0x3000, 0x2000]);
                 // the gate choice rotates deterministically so that the enumeration stays |alpha|^len
-                let gate = match (code + len as u64) % 3 { 0 => None, 1 if !lines.is_empty() => Some(lines[(code as usize / 3) % lines.len()].start), _ => Some(0xdead000) };
+                // (at the first byte of a line, strictly inside a line, one past a line's end, in no line, absent)
+                let pickl = |k: u64| &lines[(k as usize) % lines.len().max(1)];
+                let gate = match (code + len as u64) % 5 { 0 => None, 1 if !lines.is_empty() => Some(pickl(code / 5).start), 2 if !lines.is_empty() => Some(pickl(code / 5).start + 0x800),
+                                                           3 if !lines.is_empty() => Some(pickl(code / 5).end), _ => Some(0xdead000) };
                 emit(&mut out, &lines, gate, "enum");
             }
         }
@@ -107,7 +110,9 @@ pub fn run(a: &Args) {
             let base = *rng.pick(&[0x1000u64, 0x5555_0000_0000, 0x7fff_0000_0000, 0xffff_ffff_0000_0000]);
             let sizes: Vec<u64> = (0..5).map(|_| 0x1000 * (1 + rng.below(4))).collect();
             let lines = build(&seq, base, &sizes);
-            let gate = match rng.below(3) { 0 => None, 1 if !lines.is_empty() => Some(lines[rng.below(lines.len() as u64) as usize].start), _ => Some(0xdead000) };
+            let gate = match rng.below(5) { 0 => None, 1 if !lines.is_empty() => Some(lines[rng.below(lines.len() as u64) as usize].start),
+                                            2 if !lines.is_empty() => { let l = &lines[rng.below(lines.len() as u64) as usize]; Some(l.start + 1 + rng.below(l.end - l.start - 1)) }
+                                            3 if !lines.is_empty() => Some(lines[rng.below(lines.len() as u64) as usize].end), _ => Some(0xdead000) };
             emit(&mut out, &lines, gate, "random");
         }
     }
